@@ -136,6 +136,11 @@ pub fn event(s: &str) {
     });
 }
 
+/// global event sequence number (number of events logged so far)
+pub fn ev_seq() -> u64 {
+    SIM.with(|st| st.borrow().ev_count)
+}
+
 pub fn count(name: &str, n: u64) {
     SIM.with(|st| {
         *st.borrow_mut().counters.entry(name.to_string()).or_insert(0) += n;
